@@ -179,16 +179,28 @@ impl Server {
             .poll(events, self.poll_duration)
             .expect("server event poll failed; cannot recover");
 
+        #[cfg(roughenough_verif)]
+        crate::verif::emit("poll", vec![("n", crate::verif::V::U(events.iter().count() as u64))]);
+
         for msg in events.iter() {
+            #[cfg(roughenough_verif)]
+            crate::verif::emit("evt", vec![("token", crate::verif::V::U(msg.token().0 as u64))]);
+
             match msg.token() {
                 EVT_MESSAGE => loop {
                     self.responder_ietf.reset();
                     self.responder_classic.reset();
 
+                    #[cfg(roughenough_verif)]
+                    crate::verif::emit("batch_reset", vec![]);
+
                     let socket_now_empty = self.collect_requests();
 
                     self.responder_ietf.send_responses(&mut self.socket, &mut self.stats_recorder);
                     self.responder_classic.send_responses(&mut self.socket, &mut self.stats_recorder);
+
+                    #[cfg(roughenough_verif)]
+                    crate::verif::emit("batch_end", vec![("empty", crate::verif::V::B(socket_now_empty))]);
 
                     if socket_now_empty {
                         break;
@@ -199,6 +211,21 @@ impl Server {
                 _ => unreachable!(),
             }
         }
+
+        #[cfg(roughenough_verif)]
+        crate::verif::emit("pe_return", vec![]);
+    }
+
+    /// Read-only access to this server's statistics recorder
+    #[cfg(roughenough_verif)]
+    pub fn verif_stats(&self) -> &dyn ServerStats {
+        self.stats_recorder.as_ref()
+    }
+
+    /// Run the statistics publication step as the status timer would
+    #[cfg(roughenough_verif)]
+    pub fn verif_send_client_stats(&mut self) {
+        self.send_client_stats()
     }
 
     // Read and process client requests from socket until socket is empty or 'batch_size' number
@@ -207,6 +234,16 @@ impl Server {
         for i in 0..self.batch_size {
             match self.socket.recv_from(&mut self.buf) {
                 Ok((num_bytes, src_addr)) => {
+                    #[cfg(roughenough_verif)]
+                    crate::verif::emit(
+                        "recv",
+                        vec![
+                            ("len", crate::verif::V::U(num_bytes as u64)),
+                            ("src", crate::verif::V::S(src_addr.to_string())),
+                            ("i", crate::verif::V::U(i as u64)),
+                        ],
+                    );
+
                     match request::nonce_from_request(&self.buf, num_bytes, &self.srv_value) {
                         // TODO(stuart) cleanup when RFC is ratified
                         Ok((nonce, Version::RfcDraft13)) => {
@@ -230,6 +267,9 @@ impl Server {
                 }
                 Err(e) => match e.kind() {
                     ErrorKind::WouldBlock => {
+                        #[cfg(roughenough_verif)]
+                        crate::verif::emit("recv_empty", vec![("i", crate::verif::V::U(i as u64))]);
+
                         return true;
                     }
                     _ => {
@@ -247,6 +287,9 @@ impl Server {
         let listener = self.health_listener.as_ref().unwrap();
         match listener.accept() {
             Ok((ref mut stream, src_addr)) => {
+                #[cfg(roughenough_verif)]
+                crate::verif::emit("hc_accept", vec![("src", crate::verif::V::S(src_addr.to_string()))]);
+
                 info!("health check from {}", src_addr);
                 self.stats_recorder.add_health_check(&src_addr.ip());
 
@@ -261,6 +304,9 @@ impl Server {
                 }
             }
             Err(ref e) if e.kind() == ErrorKind::WouldBlock => {
+                #[cfg(roughenough_verif)]
+                crate::verif::emit("hc_empty", vec![]);
+
                 debug!("blocking in TCP health check");
             }
             Err(e) => {
@@ -281,6 +327,9 @@ impl Server {
             self.stats_queue.force_push(clients);
             self.stats_recorder.clear();
         }
+
+        #[cfg(roughenough_verif)]
+        crate::verif::emit("stats_push", vec![("n", crate::verif::V::U(client_count as u64))]);
 
         let delay = Self::compute_delay(self.stats_pub_freq);
         self.stats_pub_timer.set_timeout(delay, ());
